@@ -13,6 +13,7 @@ import Bee2V.C05.ModelDiv
 import Bee2V.C05.ModelGcd
 import Bee2V.C05.ModelPp
 import Bee2V.C05.ModelRed
+import Bee2V.C05.ModelEtc
 namespace Bee2V.C05.Drv
 open Bee2V.Proto Bee2V.C05 Bee2V.C05.Spec
 
@@ -563,6 +564,35 @@ def modelW (W : Nat) (f : String) (args : List String) : Option String :=
   | "zzRedCrand", [a, m] => do
     let a ← wl W a; let m ← wl W m
     some (join [hl W (zzRedCrand_safe W a m), hl W (zzRedCrand_fast W a m)])
+  -- ModelEtc (square root, Jacobi symbol, sliding-window powers, zmCreate strategy; value level)
+  | "zzSqrt", [a] => do
+    let (n, a) ← pw W a
+    let r := zzSqrtV W n a
+    some (join [hw W ((n + 1) / 2) r.1, b01 r.2])
+  | "zzJacobi", [a, b] => do let (_, a) ← pw W a; let (_, b) ← pw W b; some (toString (zzJacobiV a b))
+  | "zzPowerModW", [a, e, m] => do let a ← nat a; let e ← nat e; let m ← nat m; some (toString (zzPowerModW W a e m))
+  | "zzPowerMod", [a, e, m] => do
+    let (n, a) ← pw W a; let (k, e) ← pw W e; let (_, m) ← pw W m
+    some (hw W n (qrPowerV (fun u v => u * v % m) (fun u => u * u % m) (1 % m) W a e k))
+  | "zm", kind :: _ :: mo :: "from" :: [a] => do
+    let mo ← parseHex mo; let o ← parseHex a
+    let no := mo.length
+    let n := (no + W / 8 - 1) / (W / 8)
+    let m := leNat mo
+    let v := leNat o
+    let k : Option ZmKind := match kind with
+      | "plain" => some .plain | "crand" => some .crand | "barr" => some .barr | "mont" => some .mont
+      | "auto" => some (zmKind W (mo.map (·.toNat)))
+      | "gfp" => if no = 0 ∨ (mo.headD 0).toNat % 2 = 0 ∨ (no = 1 ∧ mo.headD 0 == 1) then none else some (zmKind W (mo.map (·.toNat)))
+      | _ => none
+    match k with
+    | none => some "no-ring"
+    | some k =>
+      if v < m then
+        let raw := if k == .mont then zmFromMontV W n m v else v
+        let back := if k == .mont then zmToMontV W n m (wordNegInvV W (m % 2 ^ W)) raw else raw
+        some (join [toString n, toString no, "1", hw W n raw, ho no back])
+      else some (join [toString n, toString no, "0"])
   -- ModelRed (Crandall-Montgomery and Barrett reductions, word lists)
   | "zzRedCrandMont", [a, m] => do
     let a ← wl W a; let m ← wl W m
